@@ -1,5 +1,5 @@
 (* C15 - Encoding then decoding (and decoding then encoding) is the identity. *)
-From Ctap Require Import Base Schema Wire Utf8 Typed WellTyped Procs Inst Tables Limits WireP TypedP FramingP SerP RoundTripP ObSerRole ObDeRole ObEnvRt.
+From Ctap Require Import Base Schema Wire Utf8 Typed WellTyped Procs Inst Tables Limits WireP TypedP FramingP SerP RoundTripP ObSerRole ObDeRole ObEnvRt FnShapes Shapes ObShapeFilters.
 Local Open Scope string_scope.
 Local Open Scope Z_scope.
 
@@ -109,6 +109,11 @@ Example c15_example_in_domain :
   wt (spec_env []) type_fuel (TNamed "ctap2::client_pin::Request") ex_client_pin = true.
 Proof. vm_compute. reflexivity. Qed.
 
+(* tie to the source for the hand-modelled procedural code: the bodies of these functions, as regenerated from
+   /repo now, have the shape (literals, operators, calls, control flow, constants) the model was written against *)
+Theorem c15_modelled_functions_unchanged_filters : shapes_hold fn_shapes shapes_filters = true.
+Proof. exact generated_shapes_filters. Qed.
+
 Eval vm_compute in "ASSUMPTIONS c15_bidirectional_set". Print Assumptions c15_bidirectional_set.
 Eval vm_compute in "ASSUMPTIONS c15_generated_ser". Print Assumptions c15_generated_ser.
 Eval vm_compute in "ASSUMPTIONS c15_generated_de". Print Assumptions c15_generated_de.
@@ -125,3 +130,4 @@ Eval vm_compute in "ASSUMPTIONS c15_spec_declarations_wellformed". Print Assumpt
 Eval vm_compute in "ASSUMPTIONS c15_generated_declarations_wellformed". Print Assumptions c15_generated_declarations_wellformed.
 Eval vm_compute in "ASSUMPTIONS c15_roundtrip_all_features". Print Assumptions c15_roundtrip_all_features.
 Eval vm_compute in "ASSUMPTIONS c15_example_in_domain". Print Assumptions c15_example_in_domain.
+Eval vm_compute in "ASSUMPTIONS c15_modelled_functions_unchanged_filters". Print Assumptions c15_modelled_functions_unchanged_filters.
